@@ -4,8 +4,7 @@
    Transcription of `streamflow/cwl/utils.py`:
 
      def remap_path(path_processor, path, old_dir, new_dir):
-         if ":/" in path:
-             scheme = urllib.parse.urlsplit(path).scheme
+         if ":/" in path and (scheme := urllib.parse.urlsplit(path).scheme):
              if scheme == "file":
                  return "file://" + urllib.parse.quote(path_processor.join(new_dir,
                             *os.path.relpath(urllib.parse.unquote(path[7:]), old_dir).split(os.path.sep)))
@@ -121,7 +120,7 @@ FileScheme == Chars("file://")
 
 \* ------------------------------------------------------------------ the function under study
 Remap(s, old, new) ==
-  IF HasColonSlash(s)
+  IF HasColonSlash(s) /\ Scheme(s) # <<>>              \* a string is a URL only when urlsplit finds a scheme
   THEN IF Scheme(s) = Chars("file")
        \* path[7:], NOT urlsplit(path).path: a literal "#" or "?" is an ordinary character of the name
        \* decoded, remapped and encoded again
@@ -155,10 +154,10 @@ Same(kind, got, want) == IF kind \in {"loc", "locq"} /\ ~Canonical(want)
                          THEN StartsWith(got, FileScheme) /\ Unquote(Drop(got, 7)) = Unquote(Drop(want, 7))
                          ELSE got = want
 
-\* why the transcribed function deviates (characterisation checked by TLC on the model):
-\*   - a plain path that contains ":/" is taken for a URL of an unknown scheme and returned unchanged.
-Class(kind, v) == IF kind = "path" /\ HasColonSlash(v) THEN "colon-slash-in-name:not-remapped"
-                  ELSE "none"
+\* where the transcribed function deviates from `Ideal` (characterisation checked by TLC on the model): nowhere
+\* since the three repairs of remap_path (plain paths are not decoded, URLs are encoded again, a path with ":/"
+\* is not a URL); the field stays so that a later transcription can name its classes again.
+Class(kind, v) == "none"
 
 \* everything about one (kind, relative part, directory pair), computed once
 Case(kind, r, old, new) ==
